@@ -85,7 +85,7 @@ def run(ctx):
         linear(ctx, prog)
     consumer(ctx, ctx.program("FULL"))
     ctx.floor("LINEAR", 20)
-    ctx.floor("CONSUMER", 11)
+    ctx.floor("CONSUMER", 12)
 
 
 def unwind_window(bdy):
@@ -395,6 +395,8 @@ def consumer(ctx, prog):
     for w in sorted(extra):
         ctx.violation("CONSUMER", "inv|" + w, "ArrayConsumer::%s writes taken_front/taken_back; only new, empty, next, next_back, clone and copy may" % w)
     ctx.instance("CONSUMER", "inv", sample={"writers": sorted(writers)})
+    from .. import accessors
+    accessors.rebuild(ctx, "CONSUMER", prog, AC + "copy", nfields=3)
     # clone: element i stored at this.array[i], taken_back decremented once per element
     for bdy in prog.bodies:
         if bdy.promoted is None and bdy.key.endswith("core::clone::Clone>::clone") and "array_consumer::ArrayConsumer" in bdy.key:
